@@ -439,3 +439,18 @@ Ltac inv_all :=
   | H : pay_out _ _ _ _ _ = Ok _ |- _ => unfold pay_out in H
   | H : _ = Ok _ |- _ => progress (inv1 H; try discriminate; try subst)
   end).
+
+(* ---------- a rejected message changes nothing (baseapp's cache context) ---------- *)
+Lemma step_ok c s o s' : run c s o = Ok s' -> step c s o = s'.
+Proof. intros H. unfold step, apply, uow. rewrite H. reflexivity. Qed.
+
+Lemma step_rejected c s o : is_ok (run c s o) = false -> step c s o = s.
+Proof. unfold step, apply, uow. destruct (run c s o); [discriminate|reflexivity|reflexivity]. Qed.
+
+Lemma step_cases c s o : (exists s', run c s o = Ok s' /\ step c s o = s') \/ (is_ok (run c s o) = false /\ step c s o = s).
+Proof.
+  destruct (run c s o) as [s'| |] eqn:E.
+  - left. exists s'. split; [reflexivity|apply step_ok; exact E].
+  - right. split; [reflexivity|apply step_rejected; rewrite E; reflexivity].
+  - right. split; [reflexivity|apply step_rejected; rewrite E; reflexivity].
+Qed.
